@@ -97,6 +97,7 @@ PROPS = {
         'rule': "structurally valid documents (any subset of fields; valid and invalid values; names around the DNS length limits) plus 0-2 structural defects out of 14 kinds; every catalogued served / unserved apiVersion on a minimal and a full document; each document as JSON and YAML and, when served, re-loaded under the other served versions. distinct_nontrivial = distinct documents that load",
     },
     'C18': {
+        'race': True,
         'level_text': "Theorems C18_pod / C18_controller (ExactlyOnce: enforce evaluation iff enforce-policy annotation, with the response's decision; exemption iff exempt; error iff flagged; audit/warn denial iff reported; nothing else) and C18_namespace, C18_label_bounded / C18_label_finite, C18_counts / C18_counts_perm / C18_reset; metric event lists of the real code compared with the model; the real PrometheusRecorder is driven from 16 goroutines and gathered.",
         'level_note': "Trusted: Lean kernel; harness. Not modelled: atomicity of Prometheus counters (observed under the race detector in the recorder run).",
         'rule': "mixed requests with 15% faults; recorder run: random events from 16 goroutines with Reset barriers. distinct_nontrivial = distinct requests with a non-plain response",
